@@ -4,6 +4,7 @@
 #pragma once
 #include "access.hpp"
 #include <thread>
+#include <functional>
 #include <pthread.h>
 
 namespace tpl
@@ -67,12 +68,24 @@ inline ArgInfo arginfo(const ctpg::no_type&) { return ArgInfo{ref::ERROR_VALUE_H
 // anything else reaching a rule functor (e.g. a context handed to a '>=' functor) is recorded, not a build error
 template<class X> ArgInfo arginfo(const X&) { ArgInfo a{0xBADBADULL, 0, 0, false}; a.unexpected = true; return a; }
 
+// hooks for histories (C15): the k-th rule functor call of the running operation throws, or starts another operation on the same parser
+struct injected_failure : std::runtime_error { injected_failure() : std::runtime_error("functor failure injected by the harness") {} };
+inline thread_local long g_functor_calls = 0, g_fail_at = -1, g_nested_at = -1;
+inline thread_local std::function<void()>* g_nested_hook = nullptr;
+inline void functor_hooks()
+{
+    long k = g_functor_calls++;
+    if (k == g_nested_at && g_nested_hook) { auto* h = g_nested_hook; g_nested_hook = nullptr; g_nested_at = -1; long fa = g_fail_at; g_fail_at = -1; (*h)(); g_fail_at = fa; }
+    if (k == g_fail_at) { g_fail_at = -1; throw injected_failure(); }
+}
+
 template<int R>
 struct F
 {
     template<class... A>
     TV operator()(A&&... a) const
     {
+        functor_hooks();
         RuleCall c; c.slot = R; c.had_ctx = false; c.ctx_addr = nullptr; c.ctx_const = false;
         (c.args.push_back(arginfo(a)), ...);
         std::vector<uint64_t> kids; for (auto& x : c.args) kids.push_back(x.h);
@@ -89,6 +102,7 @@ struct FC
     template<class C, class... A>
     TV operator()(C&& ctx, A&&... a) const
     {
+        functor_hooks();
         RuleCall c; c.slot = R; c.had_ctx = true; c.ctx_addr = static_cast<const void*>(&ctx);
         c.ctx_const = std::is_const_v<std::remove_reference_t<C>>;
         c.ctx_lvalue = std::is_lvalue_reference_v<C>;
